@@ -2,6 +2,7 @@
 #define LIST_STRING_H
 
 #include <stdbool.h>
+#include <stdint.h>
 
 /* Dynamic list of strings (char*) */
 typedef struct {
@@ -15,10 +16,10 @@ List_string* list_string_new(void);
 List_string* list_string_with_capacity(int capacity);
 void list_string_push(List_string *list, const char *value);
 char* list_string_pop(List_string *list);
-void list_string_insert(List_string *list, int index, const char *value);
-char* list_string_remove(List_string *list, int index);
-void list_string_set(List_string *list, int index, const char *value);
-char* list_string_get(List_string *list, int index);
+void list_string_insert(List_string *list, int64_t index, const char *value);
+char* list_string_remove(List_string *list, int64_t index);
+void list_string_set(List_string *list, int64_t index, const char *value);
+char* list_string_get(List_string *list, int64_t index);
 void list_string_clear(List_string *list);
 int list_string_length(List_string *list);
 int list_string_capacity(List_string *list);
